@@ -606,6 +606,7 @@ func Execute(c Case) (out Outcome) {
 	decided := map[*netrun.Msg]bool{}
 	var recommit *CommitPair
 	var recommitD [][]byte // the altered opening, once the commitment has been replaced
+	var raiseA *big.Int    // extra coefficient of a "raise-degree" deviation
 	if strings.HasPrefix(c.Dev.Op, "recommit:") {
 		recommit = pairFor(c.Scenario, c.Dev.MsgType)
 	}
@@ -630,7 +631,24 @@ func Execute(c Case) (out Outcome) {
 						if idx < 1 {
 							idx = 1
 						}
-						if D2, ok := alterOpening(D, idx, strings.TrimPrefix(c.Dev.Op, "recommit:"), ctx); ok {
+						cls := strings.TrimPrefix(c.Dev.Op, "recommit:")
+						var D2 []*big.Int
+						ok2 := false
+						if cls == "raise-degree" {
+							// the deviator shares a polynomial of degree t+1: one more committed coefficient a*G, and
+							// every share it hands out moved by a*id^(t+1) (consistent with the longer commitment)
+							cv := ref.Secp256k1
+							if ctx.edw {
+								cv = ref.Ed25519
+							}
+							raiseA = new(big.Int).SetBytes(core.Bytes("fault-raise-degree", 31))
+							pt := cv.BaseMul(raiseA)
+							D2 = append(append([]*big.Int{}, D...), pt.X, pt.Y)
+							ok2 = true
+						} else {
+							D2, ok2 = alterOpening(D, idx, cls, ctx)
+						}
+						if ok := ok2; ok {
 							C2 := common.SHA512_256i(D2...)
 							if nb, err := setBytesField(x.m.Bytes, recommit.CommitField, C2.Bytes(), nil); err == nil {
 								altered[x.m] = nb
@@ -649,6 +667,27 @@ func Execute(c Case) (out Outcome) {
 				decided[x.m] = true
 				if recommitD != nil {
 					if nb, err := setBytesField(x.m.Bytes, recommit.RevealField, nil, recommitD); err == nil {
+						altered[x.m] = nb
+					}
+				}
+			}
+		}
+		if recommit != nil && raiseA != nil && x.m.Sender == c.Deviator && (x.m.Type == "KGRound2Message1" || x.m.Type == "DGRound3Message1") && len(x.m.To) == 1 {
+			if _, done := altered[x.m]; !done {
+				if sh, err := getBytesField(x.m.Bytes, "share"); err == nil {
+					t := sc.Cfg.Threshold
+					if strings.Contains(string(sc.Cfg.Proto), "resharing") {
+						t = sc.Cfg.NewThreshold
+					}
+					id := new(big.Int).Mod(nw.Nodes[x.m.To[0]].ID.KeyInt(), ctx.q)
+					pw := new(big.Int).Exp(id, big.NewInt(int64(t+1)), ctx.q)
+					v := new(big.Int).Add(new(big.Int).SetBytes(sh), new(big.Int).Mul(raiseA, pw))
+					v.Mod(v, ctx.q)
+					b := v.Bytes()
+					if len(b) == 0 {
+						b = []byte{0}
+					}
+					if nb, err := setBytesField(x.m.Bytes, "share", b, nil); err == nil {
 						altered[x.m] = nb
 					}
 				}
@@ -1185,6 +1224,11 @@ func EnumerateCraftedCases(scName string, deviator int) []Case {
 				}
 				cases = append(cases, Case{Scenario: scName, Deviator: deviator, Dev: Dev{MsgType: cp.RevealType, Field: cp.RevealField, Index: idx, Op: "recommit:" + cl}})
 			}
+		}
+	}
+	for _, cp := range CommitPairs {
+		if strings.HasPrefix(scName, cp.Proto) && (strings.Contains(cp.Proto, "keygen") || strings.Contains(cp.Proto, "resharing")) {
+			cases = append(cases, Case{Scenario: scName, Deviator: deviator, Dev: Dev{MsgType: cp.RevealType, Field: cp.RevealField, Index: 1, Op: "recommit:raise-degree"}})
 		}
 	}
 	switch {
